@@ -202,8 +202,18 @@ func TestCheck(t *testing.T) {
 		m := ws[wk]
 		rng := r.RNG("c04-walk", i)
 		p := corpus[rng.IntN(len(corpus))]
-		if rng.IntN(2) == 0 {
+		switch rng.IntN(5) {
+		case 0, 1:
 			p = gen.AnyPos(rng)
+		case 2:
+			// a start FEN carrying a RAW en-passant target (not necessarily capturable), as GUIs write it
+			if q, ok := gen.RawEP(rng); ok {
+				p = q
+				m.lc.C["walks_from_raw_ep_fen"]++
+				if n := q.Normalised(); n.EP < 0 {
+					m.lc.C["walks_from_non_capturable_ep_fen"]++
+				}
+			}
 		}
 		b := eng.MustBoard(&p)
 		m.start, m.path, m.bad = p.FEN(), m.path[:0], false
@@ -220,7 +230,13 @@ func TestCheck(t *testing.T) {
 		m := ws[wk]
 		rng := r.RNG("c04-transp", i)
 		var p ref.Pos
-		switch rng.IntN(4) {
+		switch rng.IntN(5) {
+		case 4:
+			if q, ok := gen.RawEP(rng); ok {
+				p = q
+			} else {
+				p = gen.AnyPos(rng)
+			}
 		case 0:
 			p = corpus[rng.IntN(len(corpus))]
 		case 1:
@@ -246,6 +262,60 @@ func TestCheck(t *testing.T) {
 		}
 		r.Merge(m.lc)
 	})
+	// several boards alive at once (StartPos() x3, FromFEN of the same text, a clone), moved in
+	// random interleaving: an operation on one board must not disturb any other board
+	nmb := r.N(300, 6000)
+	ev.Parallel(nmb, func(wk, i int) {
+		m := ws[wk]
+		rng := r.RNG("c04-multi", i)
+		m.start, m.path, m.bad = "startpos (several boards)", m.path[:0], false
+		bs := []*board.Board{board.StartPos(), board.StartPos(), board.StartPos()}
+		if fb, err := board.FromFEN("rnbqkbnr/pppppppp/8/8/8/8/PPPPPPPP/RNBQKBNR w KQkq - 0 1"); err == nil {
+			bs = append(bs, fb)
+		}
+		bs = append(bs, bs[0].VerifClone())
+		type fr struct {
+			mv move.Move
+			rv board.Reverse
+		}
+		stacks := make([][]fr, len(bs))
+		snaps := make([]board.VerifSnap, len(bs))
+		for k, b := range bs {
+			snaps[k] = b.VerifSnapshot()
+		}
+		for op := 0; op < 160 && !m.bad; op++ {
+			k := rng.IntN(len(bs))
+			b := bs[k]
+			if len(stacks[k]) > 0 && rng.IntN(4) == 0 {
+				f := stacks[k][len(stacks[k])-1]
+				stacks[k] = stacks[k][:len(stacks[k])-1]
+				b.UndoMove(f.mv, f.rv)
+			} else {
+				l := eng.Legal(b, m.ms)
+				if len(l) == 0 {
+					continue
+				}
+				mv := l[rng.IntN(len(l))]
+				stacks[k] = append(stacks[k], fr{mv, b.MakeMove(mv)})
+			}
+			m.path = append(m.path, fmt.Sprintf("board%d", k))
+			snaps[k] = b.VerifSnapshot()
+			for j, o := range bs {
+				m.lc.C["multi_board_states_checked"]++
+				if !m.check(o, fmt.Sprintf("multi-board(op-on-%d,check-%d)", k, j)) {
+					break
+				}
+				if j != k && !o.VerifSnapshot().Equal(snaps[j]) {
+					r.Violation("C04:operation-on-one-board-changes-another", witness{Kind: "multi-board", Start: "startpos", Path: append([]string(nil), m.path...)},
+						fmt.Sprintf("after an operation on board %d, board %d (untouched) changed: its hash is %016x, from scratch %016x", k, j, uint64(o.Hash()), uint64(o.VerifCalculateHash())))
+					m.bad = true
+					break
+				}
+			}
+		}
+		r.DistinctStr(fmt.Sprint("multi", i))
+		r.Merge(m.lc)
+	})
 	// in situ: the author's consistency check re-enabled inside the real search
 	board.VerifCheckEnabled = true
 	board.VerifCheckFail = r.HookFail("C04:in-situ-consistency-check-failed")
@@ -262,7 +332,7 @@ func TestCheck(t *testing.T) {
 	})
 	r.Count("in_situ_checks_inside_search", board.VerifCheckCount.Load()-before)
 	board.VerifCheckEnabled = false
-	r.Finish("states_checked", "null_moves", "consecutive_null_moves", "illegal_pseudo_make_undo", "reload_cross_checks", "transpositions_seen", "in_situ_checks_inside_search")
+	r.Finish("states_checked", "null_moves", "consecutive_null_moves", "illegal_pseudo_make_undo", "reload_cross_checks", "transpositions_seen", "in_situ_checks_inside_search", "walks_from_non_capturable_ep_fen", "multi_board_states_checked")
 }
 
 func replay(t *testing.T, r *ev.Run) {
